@@ -23,7 +23,7 @@ type DocOpts struct {
 }
 
 var defaultKeys = []string{"a", "b", "c", "k", "n", "name", "items", "x", "y", "id", "length", "list"}
-var safeStrings = []string{"", "x", "y", "abc", "a b", "10", "9", "é", "日本", "B", "0", " ", "x,y", "1e2"}
+var safeStrings = []string{"", "x", "y", "abc", "a b", "10", "9", "é", "日本", "B", "0", " ", "x,y", "1e2", "100%", "%s %d%v"}
 
 func JSONScalar(o DocOpts) *rapid.Generator[*jsonx.Val] {
 	return rapid.Custom(func(t *rapid.T) *jsonx.Val {
